@@ -6,7 +6,7 @@ Local Open Scope R_scope.
 Notation xrR := (xr R).
 
 Ltac xr_unfold :=
-  unfold bb_update, abb_update, bb_reject, xdiv, xle0, xltk, xposfin, xzero, xsign, xisnan, xisinf,
+  unfold bb_update, abb_update, bb_reject, xdiv, xle0, xltk, xposfin, xzero, xsign, xisnan, xisinf, xisfinite,
          sinf, szero, kltb in *;
   cbn [k0 k1 kadd kmul kopp ksub kinv kdiv kleb keqb Num_R fst snd orb andb negb xorb] in *.
 
@@ -33,7 +33,7 @@ Proof. reflexivity. Qed.
 (** the test the code applies, verbatim *)
 Theorem bb_fallback_iff (pgmL gg xg : xrR) :
   let r := xdiv gg xg in
-  bb_update pgmL false gg xg = if xisnan r || xle0 r then pgmL else r.
+  bb_update pgmL false gg xg = if negb (xisfinite r) || xle0 r then pgmL else r.
 Proof. reflexivity. Qed.
 
 (** finite inner products, non-zero denominator: the documented ratio when it is positive,
@@ -48,51 +48,30 @@ Proof.
   - xr_unfold. destruct (Rlt_dec 0 (gg / xg)); rcases; auto; lra.
 Qed.
 
-(** zero denominator: 0/0 = nan falls back; num/0 with num > 0 is +inf and is NOT rejected *)
-Theorem bb_zero_den (pgmL : xrR) (gg : R) :
-  bb_update pgmL false (Fin gg) (Fin 0) = if Rlt_dec 0 gg then PInf else pgmL.
-Proof. xr_unfold. rcases; cbn; destruct (Rlt_dec 0 gg); auto; lra. Qed.
+(** zero denominator: 0/0 = nan, num/0 = +-inf: all fall back *)
+Theorem bb_zero_den (pgmL : xrR) (gg : R) (z : xrR) :
+  z = Fin 0 \/ z = NZ -> bb_update pgmL false (Fin gg) z = pgmL.
+Proof. intros [->| ->]; xr_unfold; rcases; cbn; auto; try lra; try congruence. Qed.
 
-Theorem bb_negzero_den (pgmL : xrR) (gg : R) :
-  bb_update pgmL false (Fin gg) NZ = if Rlt_dec gg 0 then PInf else pgmL.
-Proof. xr_unfold. rcases; cbn; destruct (Rlt_dec gg 0); auto; lra. Qed.
+(** a non-finite quotient (nan, +inf, -inf) always falls back *)
+Theorem bb_nonfinite_falls_back (pgmL gg xg : xrR) :
+  xisfinite (xdiv gg xg) = false -> bb_update pgmL false gg xg = pgmL.
+Proof. intros H. unfold bb_update, bb_reject. rewrite H. reflexivity. Qed.
 
-(** a quotient that passes the code's test is finite positive or +inf *)
-Lemma accepted_posfin_or_pinf (r : xrR) :
-  bb_reject r = false -> xposfin r = true \/ r = PInf.
+(** a quotient that passes the code's test is finite and positive *)
+Lemma accepted_posfin (r : xrR) : bb_reject r = false -> xposfin r = true.
 Proof. destruct r; xr_unfold; rcases; cbn; intros; auto; try discriminate; lra. Qed.
 
 Lemma posfin_accepted (r : xrR) : xposfin r = true -> bb_reject r = false.
 Proof. destruct r; xr_unfold; rcases; cbn; intros; auto; try discriminate; lra. Qed.
 
-(** RESTRICTED finiteness/positivity (the full statement -- without the hypothesis on the
-    quotient -- is refuted in Findings/C16_bb_inf.v) *)
-Theorem bb_posfin_restricted (pgmL gg xg : xrR) first :
-  xposfin pgmL = true -> xdiv gg xg <> PInf ->
-  xposfin (bb_update pgmL first gg xg) = true.
+(** FULL statement: for all extended inputs (nan, +-inf, signed zeros) the returned L is finite
+    and > 0 whenever pgm.L is *)
+Theorem bb_posfin (pgmL gg xg : xrR) first :
+  xposfin pgmL = true -> xposfin (bb_update pgmL first gg xg) = true.
 Proof.
-  intros HL Hr. unfold bb_update. destruct first; auto.
-  destruct (bb_reject (xdiv gg xg)) eqn:E; auto.
-  destruct (accepted_posfin_or_pinf _ E); auto; contradiction.
-Qed.
-
-Corollary bb_posfin_nonzero_den (pgmL : xrR) (gg xg : R) first :
-  xposfin pgmL = true -> xg <> 0 ->
-  xposfin (bb_update pgmL first (Fin gg) (Fin xg)) = true.
-Proof.
-  intros HL Hq. apply bb_posfin_restricted; auto.
-  intros E. apply xdiv_fin_pinf in E. destruct E as [[E _]|[E _]]; inversion E; lra.
-Qed.
-
-(** exactly when the returned L is not usable *)
-Theorem bb_unusable_iff (pgmL gg xg : xrR) :
-  xposfin pgmL = true ->
-  (xposfin (bb_update pgmL false gg xg) = false <-> xdiv gg xg = PInf).
-Proof.
-  intros HL. split.
-  - intros H. unfold bb_update in H. destruct (bb_reject (xdiv gg xg)) eqn:E; [congruence|].
-    destruct (accepted_posfin_or_pinf _ E) as [P|P]; auto. congruence.
-  - intros E. unfold bb_update. rewrite E. reflexivity.
+  intros HL. unfold bb_update. destruct first; auto.
+  destruct (bb_reject (xdiv gg xg)) eqn:E; auto. apply accepted_posfin; auto.
 Qed.
 
 (** ** AdaptiveBBStepSize *)
@@ -106,8 +85,8 @@ Proof. reflexivity. Qed.
 (** individual fall-backs and the selection rule, verbatim *)
 Theorem abb_structure kappa (pgmL : xrR) m xx xg gg :
   let r1 := xdiv xg xx in let r2 := xdiv gg xg in
-  let L1 := if xisnan r1 || xle0 r1 then fst m else Some r1 in
-  let L2 := if xisnan r2 || xle0 r2 then snd m else Some r2 in
+  let L1 := if negb (xisfinite r1) || xle0 r1 then fst m else Some r1 in
+  let L2 := if negb (xisfinite r2) || xle0 r2 then snd m else Some r2 in
   abb_update kappa pgmL false m xx xg gg =
   (match L1, L2 with
    | Some a, Some b => if xltk (xdiv a b) kappa then b else a
@@ -144,25 +123,35 @@ Proof.
   destruct (if bb_reject (xdiv xg xx) then fst m else Some (xdiv xg xx)); auto.
 Qed.
 
-(** RESTRICTED finiteness/positivity of the adaptive policy and of its memory *)
-Theorem abb_posfin_restricted kappa (pgmL : xrR) first m xx xg gg :
+(** FULL statement for the adaptive policy, as an invariant of its memory (any history) *)
+Theorem abb_posfin kappa (pgmL : xrR) first m xx xg gg :
   xposfin pgmL = true -> mem_ok m ->
-  xdiv xg xx <> PInf -> xdiv gg xg <> PInf ->
   let '(L, m') := abb_update kappa pgmL first m xx xg gg in
   xposfin L = true /\ mem_ok m'.
 Proof.
-  intros HL [M1 M2] N1 N2. unfold abb_update. destruct first; [split; [auto|split; auto]|].
+  intros HL [M1 M2]. unfold abb_update. destruct first; [split; [auto|split; auto]|].
   set (L1 := if bb_reject (xdiv xg xx) then fst m else Some (xdiv xg xx)).
   set (L2 := if bb_reject (xdiv gg xg) then snd m else Some (xdiv gg xg)).
   assert (P1 : forall a, L1 = Some a -> xposfin a = true).
   { intros a Ha. unfold L1 in Ha. destruct (bb_reject (xdiv xg xx)) eqn:E; auto.
-    inversion Ha; subst. destruct (accepted_posfin_or_pinf _ E); auto; contradiction. }
+    inversion Ha; subst. apply accepted_posfin; auto. }
   assert (P2 : forall a, L2 = Some a -> xposfin a = true).
   { intros a Ha. unfold L2 in Ha. destruct (bb_reject (xdiv gg xg)) eqn:E; auto.
-    inversion Ha; subst. destruct (accepted_posfin_or_pinf _ E); auto; contradiction. }
+    inversion Ha; subst. apply accepted_posfin; auto. }
   split; [|split; auto].
   destruct L1 as [a|]; auto. destruct L2 as [b|]; auto.
   destruct (xltk (xdiv a b) kappa); auto.
+Qed.
+
+(** whole runs: every L of a BB run started from a usable L0 is usable, for every sequence of
+    points and every (extended) value of the inner products *)
+Theorem bb_run_posfin P (ipxg ipgg : P -> P -> xrR) vs : forall pgmL mem,
+  xposfin pgmL = true -> List.Forall (fun L => xposfin L = true) (bb_run P ipxg ipgg pgmL mem vs).
+Proof.
+  induction vs as [|v r IH]; intros pgmL mem HL; cbn [bb_run]; [constructor|].
+  destruct mem as [p|]; cbn [bb_step].
+  - constructor; [apply bb_posfin; auto|]. apply IH. apply bb_posfin; auto.
+  - constructor; [apply bb_posfin; auto|]. apply IH. apply bb_posfin; auto.
 Qed.
 
 (** ** Line searches: positivity of every returned L, geometric sequence in closed form *)
